@@ -874,6 +874,13 @@ func (c *Conn) handleAuth(arg string) {
 
 		encoded, err = c.readLine()
 		if err != nil {
+			if neterr, ok := err.(net.Error); ok && neterr.Timeout() {
+				// The idle timeout ends the connection here as it does
+				// between commands; the command loop would otherwise arm
+				// a fresh deadline and carry on with the next line.
+				c.writeResponse(421, EnhancedCode{4, 4, 2}, "Idle timeout, bye bye")
+				c.Close()
+			}
 			return // TODO: error handling
 		}
 
